@@ -63,8 +63,8 @@ def find_module_file(name: str, search: list[str]) -> str | None:
         path = list(spec.submodule_search_locations or [])
         if i < len(parts) - 1 and not path:
             return None
-    if spec is None or spec.origin in (None, "built-in", "frozen") or not os.path.isfile(spec.origin):
-        return None
+    if spec is None or spec.origin in (None, "built-in", "frozen") or not os.path.isfile(spec.origin) or not spec.origin.endswith(".py"):
+        return None          # extension / frozen / built-in modules have no source to analyse
     return os.path.realpath(spec.origin)
 
 
@@ -217,11 +217,12 @@ def case_term(run: dict, spec: dict, follow: int) -> str | None:
         if t not in seen:
             seen.add(t)
             resol.append(t)
+    no_source = sorted({(os.path.realpath(o) if os.path.isabs(o) else o) for _q, (_mn, o) in run["locator"].items() if o is not None and not os.path.isfile(o)})
     graph = C.clist(f"({C.cstr(o)}, {C.cstrs(succ)})" for o, succ in spec["graph"].items())
     classes = C.clist(f"({C.cstr(o)}, {k})" for o, k in spec["class"].items())
     return (f"(mkImpCase {loc} {C.cstrs(black)} {C.cstrs(pip)} {C.cstrs(std)} {follow} {c_modin('<target>', target)} {C.clist(imports)} "
             f"{c_qstore(before)} {C.clist(res_terms)} {c_qstore(after)} {C.cbool(run['raised'] is not None and run['stage'] == 'generate')} "
-            f"{C.clist(resol)} {graph} {C.cstr(spec['start'])} {classes} {C.cstrs(spec['excluded'])})")
+            f"{C.clist(resol)} {graph} {C.cstr(spec['start'])} {classes} {C.cstrs(spec['excluded'])} {C.cstrs(no_source)})")
 
 
 # ---- projects --------------------------------------------------------------------------------------
